@@ -178,24 +178,63 @@ macro_rules! chk {
     };
 }
 
-/// Vacuity witness: must be SATISFIED under Kani.
+/// Vacuity witness of property `$t`: must be SATISFIED under Kani when the
+/// harness is instantiated for `$t` (for other tags it is dead code and the
+/// driver ignores it).
 #[macro_export]
 macro_rules! cov {
-    ($s:expr, $c:expr, $m:literal) => {{
+    ($s:expr, $p:expr, $t:ident, $c:expr, $m:literal) => {{
+        if $p == $crate::src::$t {
+            #[cfg(all(kani, not(feature = "nocov")))]
+            {
+                let _ = &$s;
+                kani::cover($c, concat!("[", stringify!($t), "] ", $m));
+            }
+            #[cfg(all(kani, feature = "nocov"))]
+            {
+                let _ = &$s;
+            }
+            #[cfg(not(kani))]
+            {
+                if $c {
+                    $crate::src::Src::hit($s, concat!("[", stringify!($t), "] ", $m));
+                }
+            }
+        }
+    }};
+}
+
+/// Optional witness: reachable only in some instances of a generic body
+/// (e.g. the refusal branch of an encoder). Reported when satisfied, never required.
+#[macro_export]
+macro_rules! covopt {
+    ($s:expr, $p:expr, $t:ident, $c:expr, $m:literal) => {{
+        if $p == $crate::src::$t {
+            #[cfg(all(kani, not(feature = "nocov")))]
+            {
+                let _ = &$s;
+                kani::cover($c, concat!("[", stringify!($t), "?] ", $m));
+            }
+            #[cfg(any(not(kani), feature = "nocov"))]
+            {
+                let _ = &$s;
+            }
+        }
+    }};
+}
+
+/// Mandatory witness for whatever property the body is instantiated for.
+#[macro_export]
+macro_rules! reached {
+    ($s:expr, $m:literal) => {{
         #[cfg(all(kani, not(feature = "nocov")))]
         {
             let _ = &$s;
-            kani::cover!($c, $m);
+            kani::cover(true, concat!("[*] ", $m));
         }
-        #[cfg(all(kani, feature = "nocov"))]
+        #[cfg(any(not(kani), feature = "nocov"))]
         {
             let _ = &$s;
-        }
-        #[cfg(not(kani))]
-        {
-            if $c {
-                $crate::src::Src::hit($s, $m);
-            }
         }
     }};
 }
